@@ -303,6 +303,11 @@ def canvas_validate(pid, v, scs, name, count_tags, workers=12, timeout=3000, onl
             pass
         return ""
 
+    # a scenario during which the child process died or hung satisfies no property: reported by every canvas check
+    for i, rec in enumerate(recs):
+        if rec.get("outcome") in ("abort", "timeout"):
+            v.violation(scs[i], {"tag": "ABORT", "outcome": rec.get("outcome"),
+                                 "sig": {"fam": "canvas", "tag": "ABORT", "what": rec.get("outcome")}})
     for tag in CANVAS_TAGS:
         for tup in t.tuples(tag):
             found.setdefault(tag, []).append(tup)
@@ -340,7 +345,7 @@ def canvas_validate(pid, v, scs, name, count_tags, workers=12, timeout=3000, onl
     v.inconclusive += len(t.tuples("INC"))
     # non-trivial: the main target's pixels changed at some event
     for i, rec in enumerate(recs):
-        if rec.get("outcome") == "timeout" or "targets" not in rec:
+        if rec.get("outcome") in ("timeout", "abort") or not rec.get("targets"):
             continue
         main = rec["targets"][0]
         prev = main["init"]
